@@ -3,11 +3,12 @@ use std::path::PathBuf;
 use trippy_verif::engine::{self, Ctx, Tier};
 
 trippy_verif::interpose_clock!();
+trippy_verif::interpose_random!();
 
 fn main() {
     let args: Vec<String> = std::env::args().skip(1).collect();
     engine::install_panic_hook();
-    if let Err(e) = trippy_verif::vclock::self_test() {
+    if let Err(e) = trippy_verif::vclock::self_test().and_then(|()| trippy_verif::hrand::self_test()) {
         eprintln!("INCONCLUSIVE: {e}");
         std::process::exit(2);
     }
@@ -38,10 +39,56 @@ fn main() {
             c.push(Constraint::Min(width.saturating_sub(fixed_total)));
         }
         c.extend(std::iter::repeat(Constraint::Min(7)).take(n));
+        let mut capped = 0u32;
+        let mut slowest = std::time::Duration::ZERO;
         for y in 0..iters {
-            let _ = Layout::horizontal(c.clone()).flex(Flex::Start).spacing(1).split(Rect::new(0, y, width, 1));
+            let t0 = std::time::Instant::now();
+            let r = std::panic::catch_unwind(|| {
+                let _ = Layout::horizontal(c.clone()).flex(Flex::Start).spacing(1).split(Rect::new(0, y, width, 1));
+            });
+            if r.is_err() {
+                capped += 1;
+            }
+            slowest = slowest.max(t0.elapsed());
         }
-        println!("ok");
+        println!(
+            "{iters} splits: {capped} hit the pivot cap, slowest {slowest:?}, most pivots in a terminating optimise call {}",
+            cassowary::VERIF_PIVOTS_MAX.load(std::sync::atomic::Ordering::Relaxed)
+        );
+        return;
+    }
+    if args.first().map(String::as_str) == Some("--find-layout-demo") {
+        // vcheck --find-layout-demo <from> <count>: hash seeds that make the C17 demonstration cycle
+        let from: u64 = args[1].parse().unwrap();
+        let count: u64 = args[2].parse().unwrap();
+        let t0 = std::time::Instant::now();
+        let v = trippy_verif::props::c17::find_layout_demo(from, count);
+        println!("found {v:?} in {:?}", t0.elapsed());
+        if let (Some(k), Some(path)) = (v.first(), args.get(3)) {
+            // write the demonstration as a regression / known-finding replay file
+            let body = serde_json::json!({
+                "property": "C17", "sub": "ui-ops", "sig": trippy_verif::props::c17::LAYOUT_HANG_SIG,
+                "msg": "demonstration of the recorded finding: hop table with twelve columns, hash seeds fixed",
+                "case": trippy_verif::props::c17::layout_demo_case(*k),
+            });
+            std::fs::write(path, serde_json::to_string_pretty(&body).unwrap()).expect("write demo");
+            println!("written {path}");
+        }
+        return;
+    }
+    if args.first().map(String::as_str) == Some("--frame") {
+        // vcheck --frame <TUI replay file>: print the last frame of a C17/C18 case
+        let v: serde_json::Value = serde_json::from_str(&std::fs::read_to_string(&args[1]).expect("read")).expect("json");
+        let case: trippy_verif::tui::TuiCase = serde_json::from_value(v["case"].clone()).expect("case");
+        let mut s = trippy_verif::tui::start(&case).expect("start");
+        let _ = s.refresh_and_draw();
+        for op in &case.ops {
+            let _ = s.apply(op);
+            let _ = s.refresh_and_draw();
+        }
+        for r in s.rows() {
+            println!("{r}");
+        }
         return;
     }
     if args.first().map(String::as_str) == Some("--gen-corpus") {
@@ -142,6 +189,11 @@ fn main() {
                     let path = dir.join(format!("{prop}-stuck-{:016x}.json", engine::hash64(&slot.1)));
                     let body = format!("{{\"property\": \"{prop}\", \"sub\": \"stuck\", \"sig\": \"stuck\", \"msg\": \"case did not return within {limit} s\", \"case\": {}}}", slot.1);
                     let _ = std::fs::write(&path, body);
+                    if let Ok(p) = engine::PROGRESS.try_lock() {
+                        for (id, note) in p.iter() {
+                            eprintln!("  progress of {id:?}: {note}");
+                        }
+                    }
                     eprintln!("INCONCLUSIVE: a case did not return within {limit} s; written to {}", path.display());
                     std::process::exit(2);
                 }
